@@ -4,5 +4,6 @@ CONSTANT MaxSize = 1
 INVARIANT RoundTrip
 INVARIANT Aligned
 INVARIANT Minimal
+INVARIANT DataRoundTrip
 INVARIANT Emit
 CHECK_DEADLOCK TRUE
